@@ -40,6 +40,28 @@ def run(tier, seed):
                 g.add(("dw", e), "@dw @here")
         g.finish()
         cases.append({"arch": arch, "stmts": g.stmts, "src": "\n".join(g.lines) + "\n", "files": g.files, "note": arch})
+    # every instruction template and data directive placed so that its last byte is the last byte of
+    # memory ($FFFF), with markers before and after it
+    n_top = 0
+    for arch in ("6502", "z80", "sm83"):
+        forms = []
+        for tmpl, pieces in G.INSTRS[arch]:
+            if any((not isinstance(p, int)) and p[0] == "r" for p in pieces):
+                continue
+            ln = sum(1 if isinstance(p, int) or p[0] != "w" else 2 for p in pieces)
+            ps = [p if isinstance(p, int) else (p[0], ("num", 0x12 if p[0] != "w" else 0x1234)) for p in pieces]
+            nops = 1 + max([p[1] for p in pieces if not isinstance(p, int)], default=-1)
+            ops = ["$12"] * nops
+            for p in pieces:
+                if not isinstance(p, int) and p[0] == "w":
+                    ops[p[1]] = "$1234"
+            forms.append((ln, [("instr", ps)], "  " + tmpl.format(*ops)))
+        forms += [(1, [("db", ("num", 7))], "@db 7"), (2, [("dw", ("num", 0x1234))], "@dw $1234"), (3, [("ds", ("num", 3), ("num", 9))], "@ds 3, 9"), (4, [("dbstr", "aé1".encode())], '@db "aé1"')]
+        for ln, sts, line in forms:
+            start = 0x10000 - ln
+            cases.append({"arch": arch, "stmts": [("org", ("num", start)), ("label", "before")] + sts + [("label", "after")],
+                          "src": f"@org ${start:x}\nbefore:\n{line}\nafter:\n", "files": {}, "note": "ends-at-top"})
+            n_top += 1
     res = core.run_cases(chk, cases, "m")
     ok = sum(1 for r in res if r["impl"]["kind"] == "OK")
     for r in res:
@@ -47,7 +69,7 @@ def run(tier, seed):
     chk.samples += [{"source": res[k]["case"]["src"][:500], "impl": {x: y for x, y in res[k]["impl"].items() if x != "msg"}} for k in (1, len(res) // 2)]
     chk.oblige("correspondence: implementation = token-level Model = statement-level Model (bytes and every marker label)",
                not chk.disagreements, str(chk.disagreements[:2])[:800])
-    chk.coverage.update({"statement_kind_histogram": kinds, "accepted_programs": ok, "rejected_programs": len(res) - ok,
+    chk.coverage.update({"statement_kind_histogram": kinds, "accepted_programs": ok, "ends_at_top_cases": n_top, "rejected_programs": len(res) - ok,
                          "exhaustive": False})
     chk.assumptions = ["`@here` inside a `@ds` fill expression denotes the address after the space (the size is consumed first); in an ADDR segment @db/@dw take no operands"]
     return chk.finish(
